@@ -36,9 +36,74 @@ impl PublicKey {
             .map_err(|_| ParseError::InvalidPublicKey)
     }
 
+    /// Encode the RSA public key as a DER-encoded X.509 SubjectPublicKeyInfo structure
+    /// (`rsaEncryption` algorithm identifier with NULL parameters), the form in which RSA keys
+    /// are carried in the libp2p `PublicKey` protobuf message.
+    pub fn encode_x509(&self) -> Vec<u8> {
+        yasna::construct_der(|writer| {
+            writer.write_sequence(|writer| {
+                writer.next().write_sequence(|writer| {
+                    writer.next().write_oid(&yasna::models::ObjectIdentifier::from_slice(&[
+                        1, 2, 840, 113549, 1, 1, 1,
+                    ]));
+                    writer.next().write_null();
+                });
+                writer.next().write_bitvec_bytes(&self.0, self.0.len() * 8);
+            })
+        })
+    }
+
     /// Verify the RSA signature on a message using the public key.
     pub fn verify(&self, msg: &[u8], sig: &[u8]) -> bool {
         let key = UnparsedPublicKey::new(&RSA_PKCS1_2048_8192_SHA256, &self.0);
         key.verify(msg, sig).is_ok()
+    }
+}
+
+#[cfg(test)]
+mod tests {
+    use super::PublicKey;
+    use crate::{crypto::RemotePublicKey, PeerId};
+
+    /// A 4096-bit RSA public key in the libp2p protobuf encoding (test vector of rust-libp2p).
+    const RSA_PUBLIC_KEY_PROTOBUF: &str = "080012a60430820222300d06092a864886f70d01010105000382020f003082020a0282020100e1beab071d0820\
+        0bde24eef00d049449b07770ff9910257b2d7d5dda242ce8f0e2f12e1af4b32d9efd2c090f66b0f29986dbb645\
+        dae9880089704a94e5066d594162ae6ee8892e6ec70701db0a6c445c04778eb3de1293aa1a23c3825b85c6620a\
+        2bc3f82f9b0c309bc0ab3aeb1873282bebd3da03c33e76c21e9beb172fd44c9e43be32e2c99827033cf8d0f0c6\
+        06f4579326c930eb4e854395ad941256542c793902185153c474bed109d6ff5141ebf9cd256cf58893a37f8372\
+        9f97e7cb435ec679d2e33901d27bb35aa0d7e20561da08885ef0abbf8e2fb48d6a5487047a9ecb1ad41fa7ed84\
+        f6e3e8ecd5d98b3982d2a901b4454991766da295ab78822add5612a2df83bcee814cf50973e80d7ef38111b1bd\
+        87da2ae92438a2c8cbcc70b31ee319939a3b9c761dbc13b5c086d6b64bf7ae7dacc14622375d92a8ff9af7eb96\
+        2162bbddebf90acb32adb5e4e4029f1c96019949ecfbfeffd7ac1e3fbcc6b6168c34be3d5a2e5999fcbb39bba7\
+        adbca78eab09b9bc39f7fa4b93411f4cc175e70c0a083e96bfaefb04a9580b4753c1738a6a760ae1afd851a1a4\
+        bdad231cf56e9284d832483df215a46c1c21bdf0c6cfe951c18f1ee4078c79c13d63edb6e14feaeffabc90ad31\
+        7e4875fe648101b0864097e998f0ca3025ef9638cd2b0caecd3770ab54a1d9c6ca959b0f5dcbc90caeefc4135b\
+        aca6fd475224269bbe1b0203010001";
+
+    fn unhex(s: &str) -> Vec<u8> {
+        (0..s.len()).step_by(2).map(|i| u8::from_str_radix(&s[i..i + 2], 16).unwrap()).collect()
+    }
+
+    #[test]
+    fn x509_reencoding_reproduces_canonical_der() {
+        let protobuf = unhex(RSA_PUBLIC_KEY_PROTOBUF);
+        // 08 00 (type = RSA), 12 a6 04 (data, 550 bytes)
+        let spki = &protobuf[5..];
+        let key = PublicKey::try_decode_x509(spki).unwrap();
+        assert_eq!(key.encode_x509(), spki);
+    }
+
+    #[test]
+    fn peer_id_is_independent_of_protobuf_framing() {
+        let protobuf = unhex(RSA_PUBLIC_KEY_PROTOBUF);
+        let key = RemotePublicKey::from_protobuf_encoding(&protobuf).unwrap();
+        let expected = PeerId::from_public_key_protobuf(&protobuf);
+        assert_eq!(key.to_peer_id(&protobuf), expected);
+
+        // the same key with the two protobuf fields in the other order
+        let mut swapped = protobuf[2..].to_vec();
+        swapped.extend_from_slice(&protobuf[..2]);
+        let key = RemotePublicKey::from_protobuf_encoding(&swapped).unwrap();
+        assert_eq!(key.to_peer_id(&swapped), expected);
     }
 }
